@@ -22,7 +22,9 @@ Drivers == {"MonteCarlo", "Canonical", "HamiltonianCanonical", "Isobaric", "Isot
 \* entries of the move table per driver: "user" always; a shipped structural move where the driver has one
 \* in the cell-changing ensembles the table also holds a second USER move W, scheduled under "shear": it changes the
 \* SHAPE of the cell at constant volume (what a user-defined cell move of an isotension run naturally does)
-EntriesOf(d) == {"user"} \cup (IF d = "GrandCanonical" THEN {"exch"} ELSE {}) \cup (IF d \in {"Isobaric", "Isotension"} THEN {"cell", "shear"} ELSE {})
+\* (grand canonical: "exch" inserts a particle; "swap" is a shipped generic composite that deletes one particle and inserts
+\*  another in ONE trial -- the atoms change although the particle balance of the trial is zero)
+EntriesOf(d) == {"user"} \cup (IF d = "GrandCanonical" THEN {"exch", "swap"} ELSE {}) \cup (IF d \in {"Isobaric", "Isotension"} THEN {"cell", "shear"} ELSE {})
 UserEntries == {"user", "shear"}
 MoveOf(e) == IF e = "user" THEN "U" ELSE "W"
 
@@ -30,11 +32,12 @@ MoveOf(e) == IF e = "user" THEN "U" ELSE "W"
 \* value-equal twin of U (same configuration, different object); it is never scheduled but must be notified
 UserMoves(d) == IF d = "GrandCanonical" THEN <<"U", "V">> ELSE IF d \in {"Isobaric", "Isotension"} THEN <<"U", "W">> ELSE <<"U">>
 CellChanging == {"cell", "shear"}
+AtomChanging == {"exch", "swap"}
 
 TrialLog(d, t) ==
     (IF t.entry \in UserEntries THEN << <<"call", MoveOf(t.entry)>> >> ELSE <<>>)
     \o (IF t.res THEN << <<"evaluate", t.entry>> >> ELSE <<>>)
-    \o (IF t.acc /\ t.entry = "exch" THEN [i \in 1..Len(UserMoves(d)) |-> <<"on_atoms_changed", UserMoves(d)[i]>>] ELSE <<>>)
+    \o (IF t.acc /\ t.entry \in AtomChanging THEN [i \in 1..Len(UserMoves(d)) |-> <<"on_atoms_changed", UserMoves(d)[i]>>] ELSE <<>>)
     \o (IF t.acc /\ t.entry \in CellChanging THEN [i \in 1..Len(UserMoves(d)) |-> <<"on_cell_changed", UserMoves(d)[i]>>] ELSE <<>>)
 \* to_dict of the simulation walks the table entry by entry: move, then its criteria
 NShipped(d) == Cardinality(EntriesOf(d) \ UserEntries)
@@ -42,14 +45,14 @@ SerHalf(d, what) == [i \in 1..(2 * Len(UserMoves(d))) |-> IF i % 2 = 1 THEN <<wh
                     \o [i \in 1..NShipped(d) |-> <<what, "criteria">>]
 SerLog(d) == SerHalf(d, "to_dict") \o SerHalf(d, "from_dict")
 
-Trial == [entry : {"user", "exch", "cell", "shear"}, res : BOOLEAN, acc : BOOLEAN]
+Trial == [entry : {"user", "exch", "swap", "cell", "shear"}, res : BOOLEAN, acc : BOOLEAN]
 
-VARIABLES driver, pc, cur, log, hist, trials, serialized
+VARIABLES driver, pc, cur, log, hist, trials, serialized, again
 
-vars == <<driver, pc, cur, log, hist, trials, serialized>>
+vars == <<driver, pc, cur, log, hist, trials, serialized, again>>
 
 Init == /\ driver \in Drivers /\ pc = "idle" /\ cur = [entry |-> "user", res |-> FALSE, acc |-> FALSE]
-        /\ log = <<>> /\ hist = <<>> /\ trials = 0 /\ serialized = FALSE
+        /\ log = <<>> /\ hist = <<>> /\ trials = 0 /\ serialized = FALSE /\ again = FALSE
 
 Yield(t) == /\ pc = "idle" /\ trials < MaxTrials
             /\ t.entry \in EntriesOf(driver)
@@ -73,7 +76,7 @@ Evaluate == /\ pc = "called_true"
 \* accepted: the state is saved; an accepted change of the atom count / the cell is announced ONCE to every
 \* distinct move object of the table (here: to the user move)
 Save == /\ pc = "accepted"
-        /\ log' = CASE cur.entry = "exch" -> log \o [i \in 1..Len(UserMoves(driver)) |-> <<"on_atoms_changed", UserMoves(driver)[i]>>]
+        /\ log' = CASE cur.entry \in AtomChanging -> log \o [i \in 1..Len(UserMoves(driver)) |-> <<"on_atoms_changed", UserMoves(driver)[i]>>]
                     [] cur.entry \in CellChanging -> log \o [i \in 1..Len(UserMoves(driver)) |-> <<"on_cell_changed", UserMoves(driver)[i]>>]
                     [] OTHER -> log
         /\ hist' = Append(hist, <<cur.entry, "acc">>) /\ trials' = trials + 1 /\ pc' = "idle"
@@ -94,7 +97,16 @@ SerializeSim == /\ pc = "idle" /\ ~serialized /\ trials >= 1 /\ trials < MaxTria
              /\ log' = log \o SerLog(driver)
              /\ UNCHANGED <<driver, pc, cur, hist, trials>>
 
-Next == (\E t \in Trial : Yield(t)) \/ Call \/ Evaluate \/ Save \/ Revert \/ NotAttempted \/ SerializeSim
+\* ... and whenever the simulation is serialized again, every user component is asked again (its dictionary may have
+\* changed with the run): nothing is remembered from an earlier serialization
+SerializeAgain == /\ pc = "idle" /\ serialized /\ trials = MaxTrials /\ ~again
+                  /\ again' = TRUE
+                  /\ log' = log \o SerHalf(driver, "to_dict")
+                  /\ UNCHANGED <<driver, pc, cur, hist, trials, serialized>>
+
+Main == (\E t \in Trial : Yield(t)) \/ Call \/ Evaluate \/ Save \/ Revert \/ NotAttempted \/ SerializeSim
+Next == \/ (Main /\ UNCHANGED again)
+        \/ SerializeAgain
 Spec == Init /\ [][Next]_vars
 
 (* ---- properties ----------------------------------------------------------- *)
@@ -106,7 +118,7 @@ C20_FalsyIsNotAttempted == \A i \in 1..Len(hist) : TRUE
 C20_HistoryLength == Len(hist) = trials
 Count(l, a) == Cardinality({i \in 1..Len(l) : l[i][1] = a})
 C20_NotifiedPerAcceptedChange ==
-    pc = "idle" => /\ Count(log, "on_atoms_changed") = Len(UserMoves(driver)) * Cardinality({i \in 1..Len(hist) : hist[i] = <<"exch", "acc">>})
+    pc = "idle" => /\ Count(log, "on_atoms_changed") = Len(UserMoves(driver)) * Cardinality({i \in 1..Len(hist) : hist[i][1] \in AtomChanging /\ hist[i][2] = "acc"})
                    /\ Count(log, "on_cell_changed") = Len(UserMoves(driver)) * Cardinality({i \in 1..Len(hist) : hist[i][1] \in CellChanging /\ hist[i][2] = "acc"})
 C20_OneEvaluatePerAttempt ==
     pc = "idle" => Count(log, "evaluate") = Cardinality({i \in 1..Len(hist) : hist[i][2] # "none"})
@@ -121,7 +133,8 @@ Behaviours(d, k) ==
 RECURSIVE ExpectedLog(_, _, _, _)
 ExpectedLog(d, b, s, i) ==
     IF i > Len(b) THEN <<>>
-    ELSE TrialLog(d, b[i]) \o (IF s = 1 /\ i = 1 /\ Len(b) > 1 THEN SerLog(d) ELSE <<>>) \o ExpectedLog(d, b, s, i + 1)
+    ELSE TrialLog(d, b[i]) \o (IF s = 1 /\ i = 1 /\ Len(b) > 1 THEN SerLog(d) ELSE <<>>)
+         \o (IF s = 1 /\ i = Len(b) /\ Len(b) > 1 THEN SerHalf(d, "to_dict") ELSE <<>>) \o ExpectedLog(d, b, s, i + 1)
 ExpectedHist(b) == [i \in 1..Len(b) |-> IF ~b[i].res THEN "none" ELSE IF b[i].acc THEN "acc" ELSE "rej"]
 
 Cases == UNION {{[driver |-> d, trials |-> b, serialize_after |-> s, log |-> ExpectedLog(d, b, s, 1), hist |-> ExpectedHist(b)] : b \in {x \in Behaviours(d, MaxTrials) : Len(x) >= 1}, s \in {0, 1}} : d \in Drivers}
